@@ -42,6 +42,10 @@ class Prover:
             self.out['discharged'] += 1; return 'unsat', None
         self.out['nontrivial'].append(name)
         r, m = self.check(assumptions, [neg])
+        if r == 'unknown':
+            # second attempt: a fresh (non-incremental) solver with twice the time; incremental mode and a loaded machine both cost decidable queries
+            self.out['retried'] = self.out.get('retried', 0) + 1
+            r, m = self.check_fresh(assumptions, [neg], 2 * self.timeout_ms)
         self.last = (list(assumptions), neg)
         if r in ('unsat', 'sat'): self.cross_check(name, assumptions, neg, r)
         if r == 'unsat':
